@@ -177,6 +177,7 @@ namespace
             case 3: return wire<Timer>(w, x, Int{G->p1}, Int{G->p2});
             case 4: return wire<Acc>(w, wire<Timer>(w, x, Int{G->p1}, Int{G->p2}));
             case 5: return wire<Boom>(w, wire<Acc>(w, x), Int{G->p1});
+            case 7: return wire<Boom>(w, x, Int{G->p1});   // stateless: throws every time the input is p1
             default: return wire<AddC>(w, x, Int{0});
         }
     }
